@@ -181,13 +181,25 @@ func runC03(c *fw.Ctx) {
 	depth, maxCore := 3, 30
 	if c.Thorough() {
 		depth, maxCore = 3, 60
-		layouts = append(layouts, AllSmallLayouts()...)
 	}
 	c.R.Bounds["layouts"] = fmt.Sprint(len(layouts))
 	c.R.Bounds["history"] = fmt.Sprintf("generator depth %d (<=%d core states) + 1 routing operation", depth, maxCore)
 	c.R.Bounds["batch"] = "all sequences of <=3 ages over {0,1} u {Ri-1,Ri,Ri+1} in every order, for best and every named archive; dense+one too-old point in 3 orders"
 	c.R.Bounds["single"] = "every age in {-1,0,1} u {Ri-1,Ri,Ri+1} (all ages 0..Rmax+1 when Rmax<=24)"
-	for _, ac := range aConfigs(c, layouts, []string{"mid", "high", "low"}, nil) {
+	cfgs := aConfigs(c, layouts, []string{"mid", "high", "low"}, nil)
+	ncore := len(cfgs)
+	if c.Thorough() {
+		for _, ld := range ThoroughExtraLayouts() {
+			cl := Clocks(ld.Archs, false, []string{"mid"})
+			for _, now := range []int64{cl[0], cl[len(cl)/2], cl[len(cl)-1]} {
+				cfgs = append(cfgs, aConfig{ld, 4096, now})
+			}
+		}
+	}
+	for ci, ac := range cfgs {
+		if ci >= ncore { // additional layouts of the thorough tier: quick settings
+			depth, maxCore = 2, 10
+		}
 		if !c.Mine() {
 			continue
 		}
